@@ -65,6 +65,9 @@ def frame_verdict(trk, snap, pre, f, client, knob, gc_possible=True):
             return either(IGNORE, ('conn', P))       # L3
         if t == C.DATA:
             return either(('conn', P), ('stream', SC))
+        if t == C.WINDOW_UPDATE and sid <= hi:
+            # a never-used id below the watermark was closed implicitly: like any closed stream
+            return either(IGNORE, ('conn', P))
         return ('conn', P)      # WINDOW_UPDATE / PUSH_PROMISE on idle streams
     forgotten = state == 'closed' and maybe_forgotten(trk, pre, knob)
     if t == C.HEADERS:
